@@ -191,10 +191,19 @@ pub mod vnet {
         // fails once the peer has gone away
         #[verifier::external_body] pub fn peer_addr(&self) -> (r: Result<SocketAddr, IoError>) ensures r matches Err(e) ==> e.origin@ == 1 { unimplemented!() }
         #[verifier::external_body] pub fn local_addr(&self) -> (r: Result<SocketAddr, IoError>) ensures r matches Err(e) ==> e.origin@ == 1 { unimplemented!() }
-        #[verifier::external_body] pub fn set_read_timeout(&self, d: Option<std::time::Duration>) -> (r: Result<(), IoError>) ensures r matches Err(e) ==> e.origin@ == 1 { unimplemented!() }
-        #[verifier::external_body] pub fn set_write_timeout(&self, d: Option<std::time::Duration>) -> (r: Result<(), IoError>) ensures r matches Err(e) ==> e.origin@ == 1 { unimplemented!() }
+        // a time limit on a client's connection leaves a valid client the time of a handshake over a network (a second at the very least)
+        #[verifier::external_body] pub fn set_read_timeout(&self, d: Option<std::time::Duration>) -> (r: Result<(), IoError>)
+            requires d matches Some(t) ==> crate::dur(t) >= crate::NANOS(), //@C16.a_time_limit_leaves_a_valid_client_the_time_to_shake_hands,C17.a_time_limit_leaves_a_valid_client_the_time_to_shake_hands
+            ensures r matches Err(e) ==> e.origin@ == 1 { unimplemented!() }
+        // a time limit on a client's connection leaves a valid client the time of a handshake over a network (a second at the very least)
+        #[verifier::external_body] pub fn set_write_timeout(&self, d: Option<std::time::Duration>) -> (r: Result<(), IoError>)
+            requires d matches Some(t) ==> crate::dur(t) >= crate::NANOS(), //@C16.a_time_limit_leaves_a_valid_client_the_time_to_shake_hands,C17.a_time_limit_leaves_a_valid_client_the_time_to_shake_hands
+            ensures r matches Err(e) ==> e.origin@ == 1 { unimplemented!() }
         #[verifier::external_body] pub fn set_nodelay(&self, b: bool) -> (r: Result<(), IoError>) ensures r matches Err(e) ==> e.origin@ == 1 { unimplemented!() }
-        #[verifier::external_body] pub fn set_nonblocking(&self, b: bool) -> (r: Result<(), IoError>) ensures r matches Err(e) ==> e.origin@ == 1 { unimplemented!() }
+        // the handshake is driven to its end by one blocking call (a non-blocking stream would hand back an unfinished handshake that is then dropped)
+        #[verifier::external_body] pub fn set_nonblocking(&self, b: bool) -> (r: Result<(), IoError>)
+            requires !b, //@C16.the_handshake_runs_on_a_blocking_stream,C17.the_handshake_runs_on_a_blocking_stream
+            ensures r matches Err(e) ==> e.origin@ == 1 { unimplemented!() }
     }
     pub struct TcpListener { pub x: u8 }
     pub struct UnixListener { pub x: u8 }
